@@ -122,8 +122,19 @@ Resync(S, pre, line, post) ==
                           \o SelectSeq(S.allpaths, LAMBDA q : q \in DOMAIN post.reg[x]
                                                             /\ q \notin Range(pre.rseq[x]))],
               !.active = post.active, !.sess = post.sess, !.linger = post.linger,
+              \* observer's record of which container a path serves: kept for the
+              \* nodes that still exist and - independently of the model, which
+              \* is lost here - taken over by a container whose create request
+              \* is reported successful (whatever calls it did or did not make)
               !.claimed = [x \in HostSet(S) |->
-                             [q \in DOMAIN pre.claimed[x] \cap DOMAIN post.nodes |-> pre.claimed[x][q]]],
+                 LET kept == [q \in DOMAIN pre.claimed[x] \cap DOMAIN post.nodes |-> pre.claimed[x][q]]
+                     won == IF x = h /\ line.ev = "end" /\ line.k = "create" /\ line.res = "ok"
+                               /\ line.c \in ContSet(S)
+                            THEN {q \in Range(CPaths(S, line.c)) \cap DOMAIN post.nodes :
+                                    q \notin DOMAIN kept \/ kept[q] = line.c
+                                      \/ Newer(S, line.c, kept[q])}
+                            ELSE {} IN
+                 [q \in DOMAIN kept \cup won |-> IF q \in won THEN line.c ELSE kept[q]]],
               !.watches = {w \in pre.watches : /\ w.p \in DOMAIN post.nodes
                                                /\ ~(line.ev \in {"expire", "crash"} /\ w.h = h)},
               !.pc[h] = pc,
